@@ -42,6 +42,15 @@ def c10_worker(kp, job):
         records.append(engine.rec('agnostic:' + enc, impl=out, req=docs.model_dumps_req(bad, text, encoding=enc), viol=viol,
                                   kind=enc + ('' if plain else '-natural/display'), key=(text, enc),
                                   sample={'text': text, enc: out[3:]} if idx % 43 == 0 and enc == 'akern' else None))
+    # the same comparison under category selections that drop a part of the notes (the pitch handed to the converter is
+    # built from the SELECTED sub-parts: "differs only in the pitch letters" must hold under every selection)
+    if plain:
+        from harness import optprops
+        for sel in rng.sample([{'exclude': ['ALTERATION']}, {'exclude': ['DECORATION']}, {'exclude': ['DURATION']},
+                               {'include': ['CORE', 'SIGNATURES', 'STRUCTURAL', 'BARLINES']}, {'exclude': ['ALTERATION', 'DECORATION']}], 2):
+            for enc in ('akern', 'aekern'):
+                o = dict(sel, encoding=enc)
+                records.append(optprops.evaluate(kp, g, doc, bad, text, o, 'agnostic-filtered:' + enc, clause='clef-in-force'))
     return {'records': records}
 
 
@@ -52,8 +61,8 @@ def c10_document_level(chk, b):
     results = engine.pmap(c10_worker, [(chk.seed, i) for i in range(n)])
     engine.settle(chk, results, model)
     chk.rule += ('; document level: generated documents with a clef in force for every note, clef changes, chords and splits: '
-                 'akern / aekern export vs the generator oracle (C10 closed formula under the clef in force), every 4th document '
-                 'with naturals / display suffixes (finding K6)')
+                 'akern / aekern export vs the generator oracle (C10 closed formula under the clef in force), also under 2 category '
+                 'selections that drop note parts, every 4th document with naturals / display suffixes (finding K6)')
 
 
 def c18_worker(kp, job):
